@@ -211,6 +211,11 @@ func strip(v ssa.Value) ssa.Value {
 						v = st[0].Val
 						continue
 					}
+					// across blocks: the one store that reaches the load and lies on every path to it
+					if ds := dominatingStore(x, a); ds != nil {
+						v = ds.Val
+						continue
+					}
 				}
 			}
 			return v
@@ -1527,4 +1532,55 @@ func cmpOriented(v ssa.Value, first VM) (op token.Token, x, y ssa.Value, ok bool
 		return swapOp(b.Op), b.Y, b.X, true
 	}
 	return 0, nil, nil, false
+}
+
+
+var domStoreCache = map[*ssa.UnOp]*ssa.Store{}
+
+// dominatingStore: the load of local cell a sees exactly one store on every
+// path (a single reaching store of the same function whose block dominates
+// the load), and no closure writes the cell. Then the loaded value is the
+// stored value, however many blocks lie in between.
+func dominatingStore(load *ssa.UnOp, a *ssa.Alloc) *ssa.Store {
+	if st, ok := domStoreCache[load]; ok {
+		return st
+	}
+	var res *ssa.Store
+	defer func() { domStoreCache[load] = res }()
+	for _, st := range storesTo(a) {
+		if st.Parent() != a.Parent() {
+			return nil
+		}
+	}
+	for _, r := range *a.Referrers() {
+		switch x := r.(type) {
+		case *ssa.Store:
+			if x.Addr != ssa.Value(a) {
+				return nil // the address itself is stored somewhere
+			}
+		case *ssa.UnOp, *ssa.DebugRef, *ssa.MakeClosure:
+		default:
+			return nil // escapes (passed as a pointer, field address taken, ...)
+		}
+	}
+	rs := reachingStores(load)
+	if len(rs) != 1 || rs[0].St.Block() == load.Block() {
+		return nil
+	}
+	if !rs[0].St.Block().Dominates(load.Block()) {
+		return nil
+	}
+	// belt and braces (the reaching walk is bounded): no other store of the cell lies between the two
+	for _, st := range storesTo(a) {
+		if st == rs[0].St {
+			continue
+		}
+		after := st.Block() == rs[0].St.Block() && instrIndex(st) > instrIndex(rs[0].St) || st.Block() != rs[0].St.Block() && reachableBlocks(rs[0].St.Block())[st.Block()]
+		before := st.Block() == load.Block() || reachableBlocks(st.Block())[load.Block()]
+		if after && before {
+			return nil
+		}
+	}
+	res = rs[0].St
+	return res
 }
